@@ -3,6 +3,7 @@ package http2
 import (
 	"bytes"
 	"errors"
+	"math"
 	"strconv"
 )
 
@@ -56,6 +57,11 @@ func parseUint(b []byte) (int, error) {
 	n := 0
 	for _, c := range b {
 		if c < '0' || c > '9' {
+			return 0, errInvalidUint
+		}
+
+		if n > (math.MaxInt-9)/10 {
+			// the next digit would overflow: not a length anybody can mean
 			return 0, errInvalidUint
 		}
 
